@@ -1,8 +1,8 @@
-\* every graph on 4 ids with <= 1 relation member per relation x every request list of length <= 3
+\* every graph on 4 ids with <= 1 relation member per relation x every request list of length <= 2
 CONSTANTS
   N = 4
   MaxMem = 1
-  MaxReq = 3
+  MaxReq = 2
   Family = "flat"
   FlagFamily = "plain"
   WithBad = FALSE
